@@ -523,6 +523,14 @@ func (c *Ctx) ruleE2(rule string) {
 							}
 						}
 						if !okC {
+							// the Go operator on the two String() reads, left then right
+							if bo, isBo := res.(*ssa.BinOp); isBo && bo.Op == token.ADD {
+								p0, c0, _ := x.operandOf(bo.X)
+								p1, c1, _ := x.operandOf(bo.Y)
+								okC = p0 == a && p1 == b && c0 == "string" && c1 == "string"
+							}
+						}
+						if !okC {
 							why = "string + string is not the concatenation of a then b"
 						}
 					case wantType == "":
@@ -1459,22 +1467,58 @@ func (c *Ctx) ruleE6(rule string) {
 			key := fmt.Sprintf("%s#return%d", fnName(f), k)
 			okR := true
 			why := ""
-			// a local known to differ from the zero reflect.Value
-			nonZeroCell := map[*ssa.Alloc]bool{}
-			for _, g := range x.GuardsOf(r.Block()) {
-				if bo, isB := g.Cond.(*ssa.BinOp); isB && isReflectValue(bo.X.Type()) && ((bo.Op == token.NEQ && g.Pol) || (bo.Op == token.EQL && !g.Pol)) {
-					if cell := x.Cell(bo.X); cell != nil {
-						nonZeroCell[cell] = true
+			// a local known to differ from the zero reflect.Value where it is used: a dominating
+			// test `cell != reflect.ValueOf(nil)` (use = this return, or the assignment that copies
+			// the local into the returned variable)
+			nonZeroAt := func(cell *ssa.Alloc, blk *ssa.BasicBlock) bool {
+				for _, g := range x.GuardsOf(blk) {
+					if bo, isB := g.Cond.(*ssa.BinOp); isB && isReflectValue(bo.X.Type()) && ((bo.Op == token.NEQ && g.Pol) || (bo.Op == token.EQL && !g.Pol)) {
+						if x.Cell(bo.X) == cell {
+							return true
+						}
 					}
 				}
+				return false
 			}
-			retCell := x.Cell(x.Origin(r.Results[0]))
+			var valuesOf func(v ssa.Value, use ssa.Instruction, d int, nz bool) []PVal
+			valuesOf = func(v ssa.Value, use ssa.Instruction, d int, nz bool) []PVal {
+				o := x.Origin(v)
+				u, isLoad := o.(*ssa.UnOp)
+				if !isLoad || u.Op != token.MUL || d > 5 {
+					return []PVal{{V: o}}
+				}
+				al, isAl := x.ResolveAddr(u.X).(*ssa.Alloc)
+				if !isAl || al.Parent() != f {
+					return x.PossibleValues(v)
+				}
+				var out []PVal
+				defs, zero := x.reachingStores(u, al)
+				// tested where it is used: whatever it was assigned from, it is not the zero value
+				nz = nz || nonZeroAt(al, use.Block())
+				for _, df := range defs {
+					for _, pv := range valuesOf(df.Val, df, d+1, nz) {
+						if nz && pv.V == nil {
+							continue
+						}
+						out = append(out, pv)
+					}
+				}
+				if zero && !nz {
+					out = append(out, PVal{})
+				}
+				for _, st := range x.stores[al] {
+					if st.Parent() != f {
+						out = append(out, PVal{V: x.Origin(st.Val), Outside: true, Store: st})
+					}
+				}
+				return out
+			}
 			for _, ev := range x.PossibleValues(r.Results[1]) {
 				errNil := ev.V == nil || isConstNil(ev.V)
-				for _, vv := range x.PossibleValues(r.Results[0]) {
+				for _, vv := range valuesOf(r.Results[0], r, 0, false) {
 					isNilValue := false
 					if vv.V == nil {
-						isNilValue = !(retCell != nil && nonZeroCell[retCell])
+						isNilValue = true
 					} else if vo, isCall := vv.V.(*ssa.Call); isCall && fnIs(vo.Call.StaticCallee(), "reflect", "", "ValueOf") {
 						if cc, isC := x.Unwrap(vo.Call.Args[0]).(*ssa.Const); isC && cc.Value == nil {
 							isNilValue = true
